@@ -31,3 +31,20 @@ pub mod inbound {
         crate::transports::ice::shared_tcp::peer_ufrag_from_binding_request(bytes)
     }
 }
+
+/// Join the process-wide shared UDP mux socket as one session (C06: the `SharedUdp` socket kind).
+/// Returns the bound address, the socket wrapper handed to the inbound handlers and the registration
+/// guard (deregisters on drop).
+pub mod shared {
+    use crate::transports::ice::IceSocketWrapper;
+    use std::net::SocketAddr;
+    use std::sync::Arc;
+
+    pub async fn acquire_udp(
+        bind_addr: SocketAddr,
+        ufrag: String,
+    ) -> anyhow::Result<(SocketAddr, IceSocketWrapper, Box<dyn std::any::Any + Send>)> {
+        let (addr, handle, reg) = crate::transports::ice::shared_udp::acquire(bind_addr, ufrag).await?;
+        Ok((addr, IceSocketWrapper::SharedUdp(Arc::new(handle)), Box::new(reg)))
+    }
+}
